@@ -401,6 +401,13 @@ func (x *Exec) checkModCovered(st *State, fr *Frame, v ssa.Instruction, it ModIt
 		x.checkFrame(st, fr, v, it.Ref, mapDomKey(it.MapT))
 	case "slicec":
 		x.checkFrame(st, fr, v, it.Ref, elemKey(it.ElemT, ""))
+	case "anyfield":
+		for _, m := range x.mods {
+			if m.Kind == "all" || (m.Kind == "anyfield" && structName(m.Owner) == structName(it.Owner) && m.Path == it.Path) {
+				return
+			}
+		}
+		x.emit(st, x.topKey+"/frame:"+it.Text+"@"+site, "frame", TFalse, nil)
 	case "anyslice", "anymap":
 		for _, m := range x.mods {
 			if m.Kind == "all" {
@@ -472,6 +479,15 @@ func (x *Exec) havocItem(st *State, it ModItem) {
 			arr := st.heapArr(key, ArrSort(SInt, ArrSort(SInt, l.sort)))
 			st.setHeap(key, Store(arr, it.Ref, Fresh("hv", ArrSort(SInt, l.sort))))
 		}
+	case "anyfield":
+		ft := fieldType(it.Owner, it.Path)
+		if ft != nil {
+			for _, l := range x.leaves(ft) {
+				key := fieldKey(it.Owner, joinPath(it.Path, l.path))
+				a := st.heapArr(key, ArrSort(SInt, l.sort))
+				st.heap[key] = Fresh("Hf!"+key, a.Sort)
+			}
+		}
 	case "anyslice":
 		for _, l := range x.leaves(it.ElemT) {
 			key := elemKey(it.ElemT, l.path)
@@ -515,6 +531,19 @@ func (x *Exec) havocModText(st *State, fr *Frame, calleeKey, item string) {
 	if i := strings.IndexAny(item, ".("); i >= 0 {
 		root = item[:i]
 		rest = item[i:]
+	}
+	if strings.HasPrefix(item, "anyfield(") {
+		inner := item[len("anyfield(") : len(item)-1]
+		if i := strings.LastIndex(inner, "."); i > 0 {
+			pkgName := ""
+			if fc != nil {
+				pkgName = fc.Pkg
+			}
+			if t := x.ld.resolveTypeString(pkgName, inner[:i]); t != nil {
+				x.havocItem(st, ModItem{Kind: "anyfield", Owner: t, Path: inner[i+1:]})
+				return
+			}
+		}
 	}
 	if strings.HasPrefix(item, "anyslice(") || strings.HasPrefix(item, "anymap(") {
 		pkgName := ""
